@@ -70,6 +70,16 @@ def reject_cases(rnd, n):
             pp = E.Printer(mode="min", raw_exp_base=True)
             pp.program(E.Prog(pr["body"][:1] + [E.ExprStmt(ex)]))
             cases.append(("unary-base-of-** " + op, C.join_lines(pp.o)))
+        if k % 5 == 1:
+            IN = E.Bin("in", E.Str("p"), E.Id("o"))
+            for init in (IN, E.Bin("||", E.Id("a"), IN), E.Bin("&&", IN, E.Id("b")), E.Asg("=", E.Id("a"), IN), E.Cond(E.Id("a"), E.Id("b"), IN),
+                         E.Seq([E.Id("a"), IN]), E.Bin("==", IN, E.Id("c")), E.Bin("|", E.Num(1), IN),
+                         E.Asg("+=", E.Id("b"), E.Bin("||", E.Id("a"), IN)), E.Cond(IN, E.Id("a"), E.Id("b"))):
+                loop = E.For(init, rnd.choice((E.Bool(False), None, E.Bin("<", E.Id("a"), E.Num(0)))), rnd.choice((None, E.Upd("++", E.Id("a"), False))),
+                             rnd.choice((E.Empty(), E.Block([E.Break()]))))
+                pp = E.Printer(mode="min", quote='"', raw_noin=True)
+                pp.program(E.Prog(pr["body"][:1] + [loop]))
+                cases.append(("bare-in-in-for-init", C.join_lines(pp.o)))
         sites = []
         C._target_sites(pr, sites)
         rnd.shuffle(sites)
